@@ -202,6 +202,66 @@ func runC11(p *an.Prog, r *an.Run, tier string) {
 				} else if c, ok := src.In.(ssa.CallInstruction); ok {
 					found = an.ErrEdges(c).Succ
 				}
+				// an id the pool does not know is skipped, not the rest of the report with it: from the not-found edge of the
+				// lookup the loop goes on to its next iteration (a break or return there leaves every peer listed after
+				// an unknown one untracked, unrefreshed and undeclared)
+				var notFound []an.Edge
+				if lk, ok := src.In.(*ssa.Lookup); ok && lk.CommaOk {
+					for _, b := range fn.Blocks {
+						if len(b.Instrs) == 0 {
+							continue
+						}
+						if iff, ok := b.Instrs[len(b.Instrs)-1].(*ssa.If); ok {
+							if ex, ok := iff.Cond.(*ssa.Extract); ok && ex.Tuple == ssa.Value(lk) && ex.Index == 1 {
+								notFound = append(notFound, an.Edge{From: b, To: b.Succs[1]})
+							}
+						}
+					}
+				} else if c, ok := src.In.(ssa.CallInstruction); ok {
+					for _, ev := range an.ErrValues(c) {
+						for _, ref := range *ev.Referrers() {
+							bo, ok := ref.(*ssa.BinOp)
+							if !ok || (bo.Op != token.EQL && bo.Op != token.NEQ) {
+								continue
+							}
+							other := bo.Y
+							if other == ev {
+								other = bo.X
+							}
+							ld, ok := other.(*ssa.UnOp)
+							if !ok {
+								continue
+							}
+							g, ok := ld.X.(*ssa.Global)
+							if !ok || g.Name() != "ErrKeyNotFound" {
+								continue
+							}
+							for _, r2 := range *bo.Referrers() {
+								if iff, ok := r2.(*ssa.If); ok {
+									i := 0
+									if bo.Op == token.NEQ {
+										i = 1
+									}
+									notFound = append(notFound, an.Edge{From: iff.Block(), To: iff.Block().Succs[i]})
+								}
+							}
+						}
+					}
+				}
+				leavesLoop := func(in ssa.Instruction) bool {
+					if _, isRet := in.(*ssa.Return); isRet {
+						return true
+					}
+					return !h.Dominates(in.Block())
+				}
+				for _, e := range notFound {
+					if pathFromBlock(fn, e.To, backToHeader, leavesLoop) != nil {
+						bad = append(bad, "after an id the pool does not know (not-found edge at "+p.Pos(e.From.Instrs[len(e.From.Instrs)-1].Pos())+") the loop over the reported peers can be left instead of going on to the next id: every peer listed after an unknown one stays untracked, is not refreshed and is never declared invalid")
+					}
+				}
+				if len(notFound) == 0 {
+					bad = append(bad, "no not-found branch of the peer lookup was recognised in the loop over the reported peers")
+				}
 				for _, e := range found {
 					if pathFromBlock(fn, e.To, func(in ssa.Instruction) bool { return in == ssa.Instruction(u) }, backToHeader) != nil {
 						bad = append(bad, "a reported peer whose record was found can reach the next iteration without its entry being written at "+p.Pos(u.Pos())+": a tracked peer's recorded check-in would not be refreshed")
@@ -453,6 +513,8 @@ func runC11(p *an.Prog, r *an.Run, tier string) {
 	}
 
 	checkRetryClosures(p, r)
+	// tracked peers survive a re-registration of the reporting node (every reconnect calls SetNode) in both drivers
+	checkSetNodeKeepsPeers(p, r)
 
 	// ---- reported-id: which of a peer description's two names is taken for its node id depends only on the shape of
 	// the text (long enough to hold a public key), never on whether some parser accepted the rest of the string: a
